@@ -204,7 +204,7 @@ def get_key_format(key, is_private=None):
     if not key_format:
         try:
             int(key)
-            if 70 < len(key) < 78:
+            if 70 < len(key) <= 78:
                 key_format = 'decimal'
                 is_private = True
         except (TypeError, ValueError):
